@@ -35,9 +35,12 @@ TRUSTED = [
 ASSUMES = [
     "input gates handled by the router are well formed: CNOT/CSIGN with one control and one target, swap-type gates "
     "with two targets, on two different qubits inside the register",
-    "circular theorems and correspondence describe the tree WITH fixes/C07-circular-backward-control, "
-    "C07-circular-index-mod and C07-swapalpha-arg applied; on the unchanged tree the `_refuted` theorems apply",
-    "measurements and classically controlled gates are not part of the model",
+    "theorems about cfg `fixed` and the correspondence describe the tree WITH fixes/C07-circular-backward-control, "
+    "C07-circular-index-mod, C07-swapalpha-arg, C07-measurement-passthrough and C07-adjacent-gates-passthrough applied; "
+    "on earlier trees the `_refuted` theorems (cfg orig / stage2) apply",
+    "a Measurement is modelled as an opaque operation (name, targets, classical_store) that to_chain_structure passes "
+    "through and that makes adjacent_gates refuse the circuit (explicit, documented refusal, outside the oracle); "
+    "it has no unitary meaning in the theorems; classically controlled gates are not modelled",
 ]
 
 CTRL = ["CNOT", "CSIGN"]
@@ -60,10 +63,17 @@ def _mk_circuit(inp):
     from qutip_qip.circuit import QubitCircuit
     qc = QubitCircuit(inp["N"], num_cbits=1)
     for name, targets, controls, k in inp["gates"]:
+        if name.startswith("M:"):   # a measurement: ["M:<name>", targets, [], classical_store]
+            qc.add_measurement(name[2:], targets=list(targets), classical_store=k)
+            continue
         qc.add_gate(name, targets=(list(targets) if targets else None),
                     controls=(list(controls) if controls else None),
                     arg_value=(None if k is None else k / 8.0))
     return qc
+
+
+def has_meas(inp):
+    return any(g[0].startswith("M:") for g in inp["gates"])
 
 
 def _canon_arg(a):
@@ -79,8 +89,12 @@ def _canon_arg(a):
 
 
 def _canon_gates(gates):
+    from qutip_qip.operations import Measurement
     out = []
     for g in gates:
+        if isinstance(g, Measurement):
+            out.append(["M:" + str(g.name), [int(x) for x in (g.targets or [])], [], g.classical_store])
+            continue
         name = g.name if isinstance(g.name, str) else "obj:" + type(g.name).__name__
         t = getattr(g, "targets", None)
         c = getattr(g, "controls", None)
@@ -167,7 +181,7 @@ def oracle(inp, status, out_gates, out_circ, dense_max):
                       {"logical_gates": fout[0], "residual_permutation": fout[1]},
                       {"logical_gates": fin[0], "residual_permutation": fin[1]}))
     # (i) dense unitaries
-    if N <= dense_max:
+    if N <= dense_max and not has_meas(inp):   # a circuit with measurements has no unitary
         try:
             u_in = _mk_circuit(inp).compute_unitary().full()
         except Exception:
@@ -213,6 +227,17 @@ def _cgate(g):
 
 
 def _cexpr(inp):
+    if has_meas(inp):
+        def cop(g):
+            if g[0].startswith("M:"):
+                zl = "[" + "; ".join(str(int(x)) for x in g[1]) + "]"
+                return '(OM "%s" %s %s)' % (g[0][2:], zl, "None" if g[3] is None else "(Some %d)" % g[3])
+            return "(OG %s)" % _cgate(g)
+        ol = "[" + "; ".join(cop(g) for g in inp["gates"]) + "]"
+        if inp["fn"] == "adj":
+            return "Eval vm_compute in enc_ops_out (adjacent_ops fixed %s)." % ol
+        tp = "Linear" if inp["setup"] == "linear" else "Circular"
+        return "Eval vm_compute in enc_ops_out (route_ops fixed %s %d %s)." % (tp, inp["N"], ol)
     gl = "[" + "; ".join(_cgate(g) for g in inp["gates"]) + "]"
     if inp["fn"] == "adj":
         return "Eval vm_compute in enc_out (adjacent_gates fixed %s)." % gl
@@ -265,6 +290,9 @@ def branch_of(inp):
     N = inp["N"]
     tags = []
     for g in inp["gates"]:
+        if g[0].startswith("M:"):
+            tags.append("measurement")
+            continue
         if g[0] not in HANDLED:
             tags.append("passthrough")
             continue
@@ -347,8 +375,11 @@ def gen_inputs(ctx):
         N = rng.choice([2, 3, 4, 5, 5, 6, 6, 7, 8, 9, 10, 11, 12] if ctx.thorough else [2, 3, 4, 5, 5, 6, 6, 7, 8, 9, 10])
         fn, setup = rng.choice([("tcs", "linear"), ("tcs", "circular"), ("tcs", "circular"), ("adj", "linear")])
         ng = rng.randrange(1, 9)
-        handled_only = fn == "adj" and rng.random() < 0.9
-        gates = [random_gate(rng, N, handled_only) for _ in range(ng)]
+        gates = [random_gate(rng, N, False) for _ in range(ng)]
+        if rng.random() < (0.2 if fn == "tcs" else 0.05):   # measurements: passed through / adjacent_gates refuses
+            for _ in range(rng.randrange(1, 3)):
+                gates.insert(rng.randrange(len(gates) + 1),
+                             ["M:" + rng.choice(["M0", "M1", "Z"]), [rng.randrange(N)], [], rng.choice([0, None])])
         add({"fn": fn, "setup": setup, "N": N, "gates": gates}, "random")
     # malformed / degenerate stream: control == target, out-of-range qubit, empty circuit
     for N in (2, 3, 5):
@@ -364,6 +395,8 @@ def gen_inputs(ctx):
 def in_scope(inp):
     """the property speaks about handled gates on two different qubits inside the register"""
     N = inp["N"]
+    if inp["fn"] == "adj" and has_meas(inp):
+        return False   # adjacent_gates refuses circuits with measurements explicitly ("must be called before ...")
     for g in inp["gates"]:
         qs = (g[1] or []) + (g[2] or [])
         if any(q < 0 or q >= N for q in qs):
@@ -459,9 +492,10 @@ def correspond(ctx):
 def classify(failure):
     inp = failure.get("input") or {}
     what = failure.get("what", "")
-    if inp.get("measurement"):
-        return "tcs-measurement-wrapped"
     gates = inp.get("gates") or []
+    if inp.get("measurement") or (inp.get("fn") == "tcs" and any(g[0].startswith("M:") for g in gates)
+                                  and what.startswith("passthrough")):
+        return "tcs-measurement-wrapped"
     if inp.get("fn") == "adj" and any(g[0] not in HANDLED for g in gates) and "router raised" in what:
         return "adjacent-gates-rejects-unhandled"
     if any(g[0] == "SWAPalpha" for g in gates) and ("cannot be evaluated" in what or "permutation tracking" in what):
@@ -514,7 +548,10 @@ def search(ctx, broken):
         N = ctx.rng.randrange(2, 9)
         fn, setup = ctx.rng.choice([("tcs", "linear"), ("tcs", "circular"), ("adj", "linear")])
         cands.append({"fn": fn, "setup": setup, "N": N,
-                      "gates": [random_gate(ctx.rng, N, fn == "adj") for _ in range(ctx.rng.randrange(1, 6))]})
+                      "gates": [random_gate(ctx.rng, N, False) for _ in range(ctx.rng.randrange(1, 6))]})
+    for N, setup in ((3, "linear"), (5, "circular")):
+        cands.append({"fn": "tcs", "setup": setup, "N": N,
+                      "gates": [["CNOT", [N - 1], [0], None], ["M:M0", [0], [], 0], ["X", [1], [], None]]})
     keys = set()
     for inp in cands:
         if not inp.get("measurement") and not in_scope(inp):
